@@ -20,6 +20,15 @@ NoValue(req, o) == IF req = "req" /\ ~o.wreq THEN Out("err", "")
                    ELSE IF req = "opt" /\ ~o.wopt THEN Out("ok", "absent")
                    ELSE IF req = "def" /\ ~o.wdef THEN Out("ok", "absent")
                    ELSE Out("ok", "zero")
+\* lvl = "root": the field is a member of the request struct; lvl = "nbs": it is a member of a struct-typed field
+\* annotated api.no_body_struct, which is filled from the non-body parts of the request only (zero when nothing has a value)
+ExpectL(lvl, anns, have, body, req, o) ==
+  LET f == FirstWith(anns, have) IN
+  IF f # "" THEN Out("ok", f)
+  ELSE IF lvl = "nbs" THEN Out("ok", "zero")
+  ELSE IF body # "json" THEN NoValue(req, o)
+  ELSE IF o.fallback THEN (IF "member" \in have THEN Out("ok", "member") ELSE Out("unspec", ""))
+  ELSE IF "member" \in have THEN Out("unspec", "") ELSE NoValue(req, o)
 Expect(anns, have, body, req, o) ==
   LET f == FirstWith(anns, have) IN
   IF f # "" THEN Out("ok", f)
